@@ -5,7 +5,12 @@ import (
 	"sort"
 
 	"cosmossdk.io/math"
+	"github.com/ethereum/go-ethereum/common/hexutil"
+	evmtypes "github.com/palomachain/paloma/v2/x/evm/types"
+	treasurytypes "github.com/palomachain/paloma/v2/x/treasury/types"
+	valsettypes "github.com/palomachain/paloma/v2/x/valset/types"
 	"verifsim/core"
+	"verifsim/evmsim"
 )
 
 func init() {
@@ -204,8 +209,42 @@ func jobScenario(r *core.Run, prop string) []*core.Violation {
 	prevE := w.eligibility()
 	prevFx := w.effects()
 	nBlocks := 60 + t.Intn(100)
+	// governance replaces the bridge contract mid-run (upload -> handover on the old contract -> activation under a
+	// new deployment id) while jobs, validator-set updates and signatures are in flight
+	redeployAt := -1
+	redeployOdds := uint64(4)
+	if prop == "C07" || prop == "C05" || prop == "C06" {
+		redeployOdds = 2
+	}
+	if t.Draw(redeployOdds) == 0 {
+		redeployAt = 3 + t.Intn(40)
+	}
 	for i := 0; i < nBlocks && !w.Aborted && len(viols) == 0; i++ {
+		if i == redeployAt {
+			ga := GovAuthority()
+			w.Gov.Propose("compass-redeploy", nil, &evmtypes.MsgDeployNewSmartContractProposalV2{
+				Metadata: valsettypes.MsgMetadata{Creator: ga, Signers: []string{ga}}, Authority: ga,
+				AbiJSON: evmsim.CompassABIJSON, BytecodeHex: hexutil.Encode(evmsim.CompassBytecode)})
+			r.Stats.Probe("compass_redeploy_proposed")
+			r.Trace.Event("compass-redeploy", "proposed at h=%d", w.N.Height)
+		}
 		w.RandomJobTraffic(3)
+		if prop == "C14" && !w.Gov.Busy() && t.Chance(1, 20) {
+			// governance changes the community / security fee rates mid-flight, including to zero (which makes the
+			// fee step of an estimate election fail until it is changed again)
+			rate := []string{"0", "0.01", "0.05", "0.3", "0", "0.000000000000000001"}[t.Intn(6)]
+			title := fmt.Sprintf("fee-rate %d", i)
+			if t.Draw(2) == 0 {
+				w.Gov.Propose(title, nil, Legacy(&treasurytypes.CommunityFundFeeProposal{Title: title, Description: "d", Fee: rate}))
+			} else {
+				w.Gov.Propose(title, nil, Legacy(&treasurytypes.SecurityFeeProposal{Title: title, Description: "d", Fee: rate}))
+			}
+			if rate == "0" {
+				r.Stats.Fault("treasury_fee_rate_set_to_zero")
+			} else {
+				r.Stats.Probe("treasury_fee_rate_changed")
+			}
+		}
 		if faulty {
 			for _, p := range w.Pigeons {
 				if !p.Down && t.Chance(1, 150) {
